@@ -23,6 +23,7 @@ func init() {
 		c29Types(fs, ty)
 		c29Reader(fs, rd)
 		c29Scan(fs, sc)
+		c29OpenAndRescan(fs, wr)
 	}})
 }
 
@@ -155,4 +156,30 @@ func c29Scan(fs *Facts, f *File) {
 	where := c29Scanner + ":" + itoa(f.Line(fd))
 	fs.Tri("scanFallback", TriOf(fb), where)
 	fs.Tri("scanSplits3", TriOf(sp), where)
+}
+
+// c29OpenAndRescan: openExistingFile re-creates a file shorter than header (+ name); Explorer.Scan
+// calls e.idx.clear() before e.scanDirectory.
+func c29OpenAndRescan(fs *Facts, wr *File) {
+	rec := Unknown
+	if wr != nil {
+		if fd := wr.Func("FileWriter", "openExistingFile"); fd != nil {
+			b := c29Norm(wr, fd.Body)
+			rec = TriOf(strings.Contains(b, "ifinfo.Size()<FileHeaderSize{file.Close()returnfw.createNewFile()}") &&
+				strings.Contains(b, "ifinfo.Size()<fw.header.DataStartOffset(){") &&
+				strings.Count(b, "returnfw.createNewFile()") == 2)
+		}
+	}
+	fs.Tri("openRecreatesShortFile", rec, c01Writer)
+	const ex = "app/server/explorer/explorer.go"
+	clr := Unknown
+	if f, err := Load(ex); err == nil {
+		if fd := f.Func("Explorer", "Scan"); fd != nil {
+			clears, scans := f.Calls(fd.Body, "e.idx.clear"), f.Calls(fd.Body, "e.scanDirectory")
+			clr = TriOf(len(clears) == 1 && len(scans) == 1 && clears[0].Pos() < scans[0].Pos())
+		}
+	} else {
+		fs.Err("%v", err)
+	}
+	fs.Tri("scanClearsIndex", clr, ex)
 }
